@@ -318,13 +318,18 @@ func (u *Url) Clone() *Url {
 		path:         u.path.clone(),
 		query:        cloneStringPointer(u.query),
 		fragment:     cloneStringPointer(u.fragment),
-		searchParams: u.SearchParams().Clone(),
 		parser:       u.parser,
 		isIPv4:       u.isIPv4,
 		isIPv6:       u.isIPv6,
 	}
-	// the cloned parameter list belongs to the clone, not to the original
-	c.searchParams.url = c
+	// Copy the parameter list only if it exists: creating it here would write to the receiver,
+	// and Clone is called on the base of every resolution, which callers may share between
+	// goroutines. The clone creates its own list lazily from its query.
+	if u.searchParams != nil {
+		c.searchParams = u.searchParams.Clone()
+		// the cloned parameter list belongs to the clone, not to the original
+		c.searchParams.url = c
+	}
 	return c
 }
 
